@@ -83,8 +83,15 @@ func quoteRun(args []string) error {
 					if !ok {
 						return "err NOTPARTICIPLEERROR"
 					}
-					if pe.Position().Offset != 2 || pe.Position().Line != 1 || pe.Position().Column != 3 {
-						return fmt.Sprintf("err BADPOS %v", pe.Position())
+					// "a located error": anywhere inside the offending literal, line/column consistent with the offset
+					pos := pe.Position()
+					if pos.Offset < 2 || pos.Offset > len(input) {
+						return fmt.Sprintf("err BADPOS %v", pos)
+					}
+					line := 1 + strings.Count(input[:pos.Offset], "\n")
+					col := 1 + len([]rune(input[strings.LastIndex(input[:pos.Offset], "\n")+1:pos.Offset]))
+					if pos.Line != line || pos.Column != col {
+						return fmt.Sprintf("err BADPOS %v", pos)
 					}
 					return "err"
 				}
